@@ -183,7 +183,11 @@ func runSkipper(which int, b []byte, t byte, r *rand.Rand, sched int, withData b
 					src.Budget += src.ZeroRun * (len(b) + 100)
 				}
 			}
-			d := thrift.NewReaderSkipDecoder(src)
+			var rdr io.Reader = src
+			if r.Intn(5) == 0 {
+				rdr = &doubles.LenReader{Reader: src, Staged: r.Intn(6)} // a Len method that means something else
+			}
+			d := thrift.NewReaderSkipDecoder(rdr)
 			defer d.Release()
 			out, err := d.Next(tt)
 			o := skipOut{ok: err == nil, n: len(out), err: err}
@@ -613,4 +617,17 @@ func runVirtualCase(cs *drv.Case, vc vcase) {
 	}
 	cs.Count(true, "virtual", vc.name, vc.size, vc.wrap)
 	cs.C.ObsMax("max_virtual_input_bytes", int64(total))
+}
+
+// dirty returns n bytes of non-zero garbage: a destination for encoders, which must store every byte they
+// account for (recycled and pooled buffers are not zero-filled).
+func dirty(n int) []byte {
+	b := make([]byte, n)
+	for i := range b {
+		b[i] = 0xA5 ^ byte(i*3)
+		if b[i] == 0 {
+			b[i] = 0x5A
+		}
+	}
+	return b
 }
